@@ -101,7 +101,7 @@ def model_input(case: str, out: str) -> str:
             toks.append(f"start.{who}")
         elif k == "end":
             toks.append(f"end.{who}.{OUT.get(e[2], '?' + e[2])}")
-        elif k in ("pre", "post", "probe"):
+        elif k in ("pre", "post", "probe", "repre", "repost"):
             grp = e[3].split("/")[2]
             if grp == "-" or grp.isdigit():
                 toks.append(f"seen.{who}.{grp}")
@@ -129,7 +129,7 @@ def model_input(case: str, out: str) -> str:
             toks.append(f"raise.{who}.{'e' if e[2] == 'exc' else 'b'}")
         elif k == "caught":
             toks.append(f"caught.{who}.{OUT.get(e[2], '?' + e[2])}")
-        elif k in ("tryok", "hang", "den", "dened", "dex", "dexed"):
+        elif k in ("tryok", "hang", "den", "dened", "dex", "dexed", "dprobe", "reentered", "refail", "yraise"):
             pass    # disposables themselves are C02/C08; here only their effect on the group (enterfail / cleanup)
         elif k == "spawn":
             toks.append(f"spawn.{who}.{e[2]}.{'s' if e[3] == 'spawn' else 'c'}")
